@@ -20,11 +20,22 @@ def move (t : List El) : List Int × List Int × Nat :=
   (t.map (·.2), t.map (fun e => e.1.residue e.2), (t.map (·.1.moveCost)).sum)
 
 /-- `a = b`: `a` holds `b`'s values -/
-def assign (t : List El2) : List Int × Nat := (t.map (·.2.2), (t.map (·.1.copyCost)).sum)
+def assign (t : List El2) : List Int × Nat := (t.map (·.2.2), (t.map (·.1.assignCost)).sum)
 
-/-- `a = move(b)` -/
+/-- `a = move(b)`: [pairs.pair] "assigns `std::forward<first_type>(p.first)` to `first`" -/
 def moveAssign (t : List El2) : List Int × List Int × Nat :=
-  (t.map (·.2.2), t.map (fun e => e.1.residue e.2.2), (t.map (·.1.moveCost)).sum)
+  (t.map (·.2.2), t.map (fun e => e.1.residue e.2.2), (t.map (·.1.moveAssignCost)).sum)
+
+/-- `a = b` for pairs of different element types ([pairs.pair] `operator=(const pair<U1, U2>& p)`: "assigns `p.first`
+    to `first` and `p.second` to `second`"): `a` holds `b`'s values, `b` is unchanged; every element costs what a copy
+    assignment from an element of the SOURCE kind costs -/
+def convAssign (t : List ElX) : List Int × Nat := (t.map (·.2.2.2), (t.map (·.2.1.assignCost)).sum)
+
+/-- `a = move(b)` for pairs of different element types ([pairs.pair] `operator=(pair<U1, U2>&& p)`: "assigns
+    `std::forward<U1>(p.first)` to `first` and `std::forward<U2>(p.second)` to `second`"): what is left in `b` and what
+    is copied is decided by the SOURCE kind `U` - `forward<U>` of a reference kind is an lvalue: nothing is moved from -/
+def convMoveAssign (t : List ElX) : List Int × List Int × Nat :=
+  (t.map (·.2.2.2), t.map (fun e => e.2.1.residue e.2.2.2), (t.map (·.2.1.moveAssignCost)).sum)
 
 /-- `a.swap(b)`: the values are exchanged; every element is moved three times -/
 def swap (t : List El2) : List Int × List Int × Nat :=
